@@ -315,7 +315,7 @@ def leader_gate(cx):
             cx.check(g.dominated_by_block(c.at, is_record), key + ":after-record", "the winning tally is taken after record_vote in the same function", c)
 
 
-@obligation("VOTE.response_kind", ["C02"], floor=1, kind="guard (CNF)",
+@obligation("VOTE.response_kind", ["C01", "C02", "C03"], floor=1, kind="guard (CNF)",
             why="pre-vote grants of term T counted as real votes for T elect a leader nobody voted for")
 def response_kind(cx):
     rec = cx.fn("ProgressTracker::record_vote")
@@ -388,3 +388,82 @@ def tally_source(cx):
         if not any(x == ("enum", "raft::quorum::VoteResult", "Won") for x in sides) or not any(match(call("~joint::Configuration::vote_result", fld("Configuration.voters", fld("ProgressTracker.conf")), ANY), x) for x in sides):
             ok = False
     cx.check(ok, "has_quorum", "has_quorum(set) == (self.conf.voters.vote_result(member of set) == Won)", shape=show(shape))
+
+
+@obligation("VOTE.uptodate_shape", ["C03", "C10"], floor=2, kind="exact finite truth table from return paths",
+            why="C03 direction: nobody with a worse log may be accepted; C10 direction: an equally up-to-date candidate must be accepted, else identical logs can never elect anybody")
+def uptodate_shape(cx):
+    f = cx.fn("RaftLog::is_up_to_date")
+    rets = cx.pg(f).returns()
+    cx.check(bool(rets), "paths", "is_up_to_date has enumerable return paths")
+    body = f.body
+    # parameters: (self, last_index, term)
+    pidx = ptrm = None
+    for i in range(2, body.arg_count + 1):
+        n = body.local_name(i)
+        if n and "term" in n:
+            ptrm = ("param", i, n)
+        else:
+            pidx = ("param", i, n)
+    cx.need(pidx is not None and ptrm is not None, "parameters (last_index, term) of is_up_to_date")
+
+    def kind(e):
+        if e == ptrm:
+            return ("t", "cand")
+        if e == pidx:
+            return ("i", "cand")
+        if e[0] == "call" and e[1].endswith("RaftLog::last_term"):
+            return ("t", "own")
+        if e[0] == "call" and e[1].endswith("RaftLog::last_index"):
+            return ("i", "own")
+        return None
+
+    def ev(e, val, asg):
+        """value of boolean expr under asg = {'t': cmp(cand, own), 'i': cmp(cand, own)} with cmp in -1/0/1"""
+        if e[0] == "bool":
+            return e[1] == val
+        if e[0] != "bin" or e[1] not in ("Lt", "Le", "Eq", "Ne"):
+            return None
+        ka, kb = kind(e[2]), kind(e[3])
+        if ka is None or kb is None or ka[0] != kb[0] or ka[1] == kb[1]:
+            return None
+        c = asg[ka[0]]            # cmp(cand, own)
+        if ka[1] == "own":
+            c = -c                # now cmp(a, b)
+        r = {"Lt": c < 0, "Le": c <= 0, "Eq": c == 0, "Ne": c != 0}[e[1]]
+        return r == val
+    bad_c03, bad_c10, unknown = [], [], False
+    for t in (-1, 0, 1):
+        for i in (-1, 0, 1):
+            asg = {"t": t, "i": i}
+            want = t > 0 or (t == 0 and i >= 0)
+            got = set()
+            for lits, v, _ in rets:
+                sat = True
+                for l in lits:
+                    if l[0] != "is":
+                        sat = None
+                        break
+                    r = ev(l[1], l[2], asg)
+                    if r is None:
+                        sat = None
+                        break
+                    sat = sat and r
+                if sat is None:
+                    unknown = True
+                    continue
+                if sat:
+                    r = ev(v, True, asg)
+                    if r is None:
+                        unknown = True
+                    else:
+                        got.add(r)
+            if got == {True} and not want:
+                bad_c03.append((t, i))
+            if got == {False} and want:
+                bad_c10.append((t, i))
+            if len(got) != 1:
+                unknown = True
+    cx.check(not unknown, "recognised", "every path of is_up_to_date compares (term, last_term) and (last_index, last_index()) only")
+    cx.check(not bad_c03, "C03:no-worse-log-accepted", "is_up_to_date never accepts a candidate whose (last term, last index) is behind the voter's (accepted although behind at cmp(term), cmp(index) = %s)" % bad_c03)
+    cx.check(not bad_c10, "C10:equal-log-accepted", "is_up_to_date accepts every candidate that is at least as up to date (refused at %s)" % bad_c10)
